@@ -235,6 +235,7 @@ def check(chk):
     _replace_or_advance(chk, repo)
     _plumbing(chk, repo)
     _settings_not_mutated(chk, repo)
+    _start_order_and_fadeout_timer(chk, repo)
 
     # ------------------------------------------------------------ FLOW-8
     lp = repo.cls(LP, "LightPlayer")
@@ -676,6 +677,33 @@ def _settings_not_mutated(chk, repo):
     chk.ob("MUT-17", "writes into handed settings examined (%d)" % n, n >= 2, "mpf/config_players/show_player.py:1", nontrivial=False)
 
 
+def _start_order_and_fadeout_timer(chk, repo):
+    """REPL-17 (order): when a show starts at its sync point, the show it replaces is stopped (start callback) *before* the first step of
+    the new show runs: non-stacked effects (a coil both shows hold) set by the new step would otherwise be cleared by the old show's stop.
+    PAIR-24 (shared with C09): a light's fade-out entry of one key is removed by a timer of its own (the delay name varies with the key):
+    two shows fading out on one light must not cancel each other's clean-up."""
+    f = repo.func(SH, "RunningShow._start_now")
+    chk.analysed(f)
+    cfg = f.cfg()
+    cb = [n for n in cfg.nodes if n.kind == "stmt" and isinstance(n.ast, ast.Expr) and isinstance(n.ast.value, ast.Call) and src(n.ast.value.func) == "self.start_callback"]
+    run = [n for n, c in cfg.calls_named("_run_next_step")]
+    clr = [n for n in cfg.nodes if n.kind == "stmt" and isinstance(n.ast, ast.Assign) and src(n.ast.targets[0]) == "self.start_callback" and src(n.ast.value) == "None"]
+    ok = len(cb) == 1 and len(run) == 1 and len(clr) == 1 and cfg.path_avoiding(run[0].id, [cb[0].id], [], ignore_exc=True) is None and \
+        cfg.guards_at(cb[0].id).get("self.start_callback") is True and cfg.dominates(cb[0].id, clr[0].id)
+    chk.ob("REPL-17", "at its start a show first runs its start callback (which stops the show it replaces), once, and then its first step", ok, f.where(),
+           construct=f.ident, text="start callback before first step")
+    LTF = "mpf/devices/light.py"
+    g = repo.func(LTF, "Light.remove_from_stack_by_key")
+    chk.analysed(g)
+    rs = [c for c in g.calls() if call_attr(c) == "reset" and "delay" in src(c.func.value)]
+    chk.need(len(rs) == 1, "PAIR-24", "a faded removal books the removal of its fade-out entry", g)
+    nm = kwarg(rs[0], "name")
+    cbk = kwarg(rs[0], "callback")
+    ok = nm is not None and any(isinstance(y, ast.Name) and y.id == "key" for y in ast.walk(nm)) and cbk is not None and "key=key" in src(cbk).replace(" ", "")
+    chk.ob("PAIR-24", "each key's fade-out has a clean-up timer of its own, bound to that key", ok, g.where(rs[0]), detail="name=%s" % (src(nm) if nm is not None else None),
+           construct=g.ident, text="fadeout timer per key")
+
+
 def _token_cache(chk, repo):
     """CACHE-17: the per-token step cache is keyed by the whole token mapping.  The cached steps depend on token *names and values*
     (both are substituted); a key built from part of the mapping (`.values()`, `.keys()`, a single entry, `len`) makes two different
@@ -763,6 +791,8 @@ def battery():
         M("show player raises the priority inside the shared settings", "mpf/config_players/show_player.py", "                show_settings = dict(show_settings)\n", "", "MUT-17"),
         M("explicit sync_ms 0 replaced by the machine default", "mpf/core/show_controller.py", "        if sync_ms is None:\n            sync_ms = self.machine.config['mpf']['default_show_sync_ms']", "        if not sync_ms:\n            sync_ms = self.machine.config['mpf']['default_show_sync_ms']", "FWD-17"),
         M("show pool swaps start_step and start_running", SH, "        return self.asset.play_with_config(show_config, start_time, start_running, start_callback, stop_callback,\n                                           start_step)", "        return self.asset.play_with_config(show_config, start_time, start_step, start_callback, stop_callback,\n                                           start_running)", "FWD-17"),
+        M("first step runs before the replaced show is stopped", SH, "        if self.start_callback:\n            self.start_callback()\n            self.start_callback = None\n        pause_after_step = not self.start_running\n        self._run_next_step(post_events=self.show_config.events_when_played,\n                            pause_after_step=pause_after_step)", "        pause_after_step = not self.start_running\n        self._run_next_step(post_events=self.show_config.events_when_played,\n                            pause_after_step=pause_after_step)\n        if self.start_callback:\n            self.start_callback()\n            self.start_callback = None", "REPL-17"),
+        M("fade-out clean-up timers of a light share one name", "mpf/devices/light.py", "name=\"remove_fade_{}\".format(key))", "name=\"remove_fade_{}\".format(self.name))", "PAIR-24"),
     ]
 
 
